@@ -292,9 +292,19 @@ impl Statement {
               e2.pretty_print(collector, heap, symbol_table, str_table);
               collector.push_str("[1]");
             } else {
+              // An operand that may hold a pointer (an enum value tested against a tag) must not
+              // be coerced: `[1] == 1` is true in JavaScript.
+              let may_be_pointer = |e: &Expression| {
+                matches!(e, Expression::Variable(_, t) if !matches!(t, Type::Int32))
+              };
+              let is_strict_cmp = matches!(operator, BinaryOperator::EQ | BinaryOperator::NE)
+                && (may_be_pointer(e1) || may_be_pointer(e2));
               e1.pretty_print(collector, heap, symbol_table, str_table);
               collector.push(' ');
               collector.push_str(operator.as_str());
+              if is_strict_cmp {
+                collector.push('=');
+              }
               collector.push(' ');
               e2.pretty_print(collector, heap, symbol_table, str_table);
             }
